@@ -61,6 +61,19 @@ def build(c, tile=1, chan_order=None):
     return ds
 
 
+def regrouped(ds, pname, sname, back=False):
+    """The same dataset with its two data groups called pname / sname instead of primary / secondary (or back)."""
+    m = {}
+    for name in list(ds.variables) + list(ds.dims):
+        name = str(name)
+        for old, new in (("secondary", sname), ("primary", pname)) if not back else ((sname, "secondary"), (pname, "primary")):
+            if name.startswith(old + "/"):
+                m[name] = new + name[len(old):]
+                break
+    out = ds.rename(m)
+    return out.assign_coords({"Collocations/group": [pname, sname] if not back else ["primary", "secondary"]})
+
+
 def same(a, b):
     a, b = np.asarray(a, dtype=float), np.asarray(b, dtype=float)
     return a.shape == b.shape and bool(np.all((a == b) | (np.isnan(a) & np.isnan(b))))
@@ -218,6 +231,11 @@ def replay_case(col, item):
         # labelled channels stored in opposite orders in the two datasets: data are combined by LABEL
         cl = concat_collocations([build(a, chan_order="ascending"), build(b, chan_order="descending")])
         check_expand(col, ab, case["ab"], cl, "concat-expand", {"tile": 1, "list": "[a, b]", "channel_labels": "ascending / descending"})
+        # group names of which one is the beginning of the other (an instrument and the instrument on one platform)
+        for pn, sn in (("MHS", "MHS_N18"), ("AMSU_B15", "AMSU")):
+            cg = concat_collocations([regrouped(build(a), pn, sn), regrouped(build(b), pn, sn)])
+            check_expand(col, ab, case["ab"], regrouped(cg, pn, sn, back=True), "concat-expand",
+                         {"tile": 1, "list": "[a, b]", "group_names": [pn, sn]})
         # the inputs may be used again afterwards (no aliasing of the index arrays)
         da, db = build(a), build(b)
         concat_collocations([da, db])
